@@ -163,6 +163,10 @@ def match_shape(ctx, p, v):
     tags = set(p.get("tags", []))
     for f in ctx.findings_for("shape"):
         if f.get("shape") and f["shape"] in shapes:
+            # bundled instructions are identified by NAME: a shape finding explains a mismatch of a corpus part only if the
+            # finding lists that instruction (generated programs are identified by their shape)
+            if "#" in p.get("id", "") and p["id"].split("#")[0] not in f.get("names", []):
+                continue
             # a finding may name the SIGNATURE of its failure in the report; a mismatch of the same program shape
             # without that signature is a different defect and is not attributed to the finding
             if f.get("sig") == "il-value-not-concrete" and v is not None:
